@@ -79,6 +79,7 @@ struct RealSetup {
 };
 
 bool subMode = false;   // set by the mode sublookup
+bool historyMode = false;   // set by the mode history: keys are looked up (without evaluation) while only a part is defined
 
 std::string runOrder(const Case &c, const std::vector<int> &order, std::vector<int> &outcomes, std::vector<bool> &acceptedOut) {
   const auto lookups = lookupsFor(c);
@@ -92,7 +93,17 @@ std::string runOrder(const Case &c, const std::vector<int> &order, std::vector<i
     std::vector<std::unique_ptr<Handler>> subs(c.specs.size());
     Handler h(out, err, (c.abbrev ? 0 : Handler::hfNoAbbr) | Handler::hfUsageCont);
     std::vector<bool> accepted(c.specs.size(), false);
+    size_t definedSoFar = 0;
     for (int idx : order) {
+      // mode history: after half of the definitions every key and prefix is asked for once (getArgHandler does the
+      // same lookup as the evaluation); what a handler answers later depends on its keys, not on what it was asked before
+      if (historyMode && definedSoFar == order.size() / 2) {
+        for (auto &lk2 : lookups) {
+          try { (void)h.getArgHandler(lk2.key); }
+          catch (const std::exception &) {}
+        }
+      }
+      ++definedSoFar;
       try {
         if (subMode && c.member[idx] == 1) {
           subs[idx].reset(new Handler(out, err, Handler::hfUsageCont));
@@ -281,6 +292,10 @@ struct Init {
     sm.gen = []() { return rc::gen::exec([]() { Case c = *genCase(false); for (auto &m : c.member) m = *range<int>(0, 9) < 4 ? 1 : 0; return c; }); };
     sm.run = [](const Case &c) { subMode = true; std::string r = runCase(c); subMode = false; return r; };
     sm.show = showCase; sm.parse = parseCase;
+    auto &hm = addMode<Case>("history");
+    hm.gen = []() { return genCase(false); };
+    hm.run = [](const Case &c) { historyMode = true; std::string r = runCase(c); historyMode = false; if (r.empty()) stats().cls("lookups_between_definitions"); return r; };
+    hm.show = showCase; hm.parse = parseCase;
     auto &g = addMode<Case>("groupdup");
     g.gen = []() { return genCase(true); }; g.run = runGroupDup; g.show = showCase; g.parse = parseCase;
   }
